@@ -362,6 +362,30 @@ func invalidClasses() []invalidClass {
 			c.Deb.Signature.KeyFile, c.RPM.Signature.KeyFile = "scripts/empty-key", "scripts/empty-key"
 		}},
 		{"apk-key-empty", func(c *nfpm.Config) { c.APK.Signature.KeyFile = "scripts/empty-key" }},
+		// a key id (well-formed) that names no key of the configured key file: the package cannot be signed as asked
+		{"pgp-key-id-not-in-key-file", func(c *nfpm.Config) {
+			id := "0123456789abcdef"
+			c.Deb.Signature.KeyFile, c.RPM.Signature.KeyFile = key, key
+			c.Deb.Signature.KeyID, c.RPM.Signature.KeyID = &id, &id
+		}},
+		// a signed apk needs a key name; without one it is derived from the maintainer's address - and there is none
+		{"apk-signature-without-key-name-and-maintainer", func(c *nfpm.Config) {
+			c.APK.Signature.KeyFile = filepath.Join(repoDir(), "internal/sign/testdata/rsa_unprotected.priv")
+			c.APK.Signature.KeyName, c.Maintainer = "", "  "
+		}},
+		// a declared configuration file whose source is not there, in every flavour
+		{"config-source-missing", func(c *nfpm.Config) {
+			c.Contents = append(c.Contents, &files.Content{Source: "src/not-there.conf", Destination: "/etc/c06/app.conf", Type: files.TypeConfig})
+		}},
+		{"config-noreplace-source-missing", func(c *nfpm.Config) {
+			c.Contents = append(c.Contents, &files.Content{Source: "src/not-there.conf", Destination: "/etc/c06/app.conf", Type: files.TypeConfigNoReplace})
+		}},
+		{"config-missingok-source-missing", func(c *nfpm.Config) {
+			c.Contents = append(c.Contents, &files.Content{Source: "src/not-there.conf", Destination: "/etc/c06/app.conf", Type: files.TypeConfigMissingOK})
+		}},
+		{"config-missingok-pattern-without-match", func(c *nfpm.Config) {
+			c.Contents = append(c.Contents, &files.Content{Source: "src/conf.none/*.conf", Destination: "/etc/c06/", Type: files.TypeConfigMissingOK})
+		}},
 	}
 }
 
@@ -421,6 +445,16 @@ func runC06Invalid(w *caseWriter, id string, d c06Desc, st *c06Stats) {
 			}
 		})
 		w.line("iset %s %s %d %s", xs("signing-callback-fails"), xs(f), b2i(err == nil), xs(fmt.Sprint(err)))
+		st.invalid++
+	}
+	// a signed apk through a callback, without key name and without a maintainer address
+	if base["apk"] {
+		err := packageInto(d.YAML, "apk", io.Discard, func(info *nfpm.Info) {
+			info.APK.Signature.SignFn = func(io.Reader) ([]byte, error) { return []byte("signature"), nil }
+			info.APK.Signature.KeyName, info.Maintainer = "", ""
+		})
+		var pn *panicked
+		w.line("iset %s %s %d %s", xs("apk-signature-callback-without-key-name-and-maintainer"), xs("apk"), b2i(err == nil || errors.As(err, &pn)), xs(fmt.Sprint(err)))
 		st.invalid++
 	}
 	// an invalid signature type with a callback as the only signer
